@@ -282,6 +282,21 @@ Definition reports_in (mode : list (string * bool)) (c : cmd) : bool := reports 
 Definition entry := (string * list (string * bool) * cmd)%type.
 Definition entry_ok (e : entry) : bool := let '(_, m, c) := e in safe_in m c && reports_in m c.
 
+(* ---------------------------------------------------------------- iteration state inside the document
+   A container of the document that is its own iterator (hdf5/NetworkContainer.OptimizedList) keeps the position
+   in a field.  An export that fails in the middle of such a container leaves that field behind; this is invisible
+   - the document is still "as it was" - exactly when every iteration starts by resetting every field an
+   iteration modifies.  Row: (class, fields stored by __next__ / later in __iter__, fields reset to a constant by
+   the leading statements of __iter__). *)
+Definition iter_row := (string * list string * list string)%type.
+Definition mem_str (f : string) (l : list string) : bool := existsb (String.eqb f) l.
+Definition iter_row_ok (r : iter_row) : bool := let '(_, m, z) := r in forallb (fun f => mem_str f z) m.
+Definition iter_ok (t : list iter_row) : bool := forallb iter_row_ok t.
+
+(* container state: field -> value; an iteration starts with [rewind] *)
+Definition cstate := string -> nat.
+Definition rewind (z : list string) (s : cstate) : cstate := fun f => if mem_str f z then 0 else s f.
+
 (* ---------------------------------------------------------------- used by the correspondence run *)
 Definition no_sites : label -> option string := fun _ => None.
 Definition one_site (l : label) (e : string) : label -> option string :=
